@@ -1993,8 +1993,13 @@ class FileBuilder:
                 FileBuilder._try_to_remove_file(filename)
         FileBuilder._remove_empty_dirs(list(dirs_to_remove))
 
-        FileBuilder._create_dirs(self._old_cache.created_dirs())
+        # Restore the old files first: a directory of the previous build might
+        # have been replaced by a file that this build moved aside, and
+        # recreating the directory would block the file's way back
         self._backups.restore_all()
+        FileBuilder._create_dirs([
+            dir_ for dir_ in self._old_cache.created_dirs()
+            if not os.path.isfile(dir_)])
         logger.info('Rolled back build operation')
 
     def _build(self, cache_filename, func, args, kwargs):
